@@ -300,6 +300,24 @@ def key_cases(ctx: Ctx) -> None:
 
     res = ctx.res
     rng = ctx.rng
+
+    def again(s: str, n_desc: str) -> None:
+        """The same key string configured again (the next reconnect attempt of the client, another client of the process): same verdict."""
+        for attempt in (2, 3):
+            res.evaluations += 1
+            res.count("keys/same-invalid-string-again")
+            try:
+                h2, c2, t2, d2 = wire.make_noise(s, None)
+                d2.start()
+                res.violation("C04/key/invalid-accepted-on-reuse", f"{n_desc}: rejected the first time, accepted when configured again (attempt {attempt}); "
+                              f"client wrote {len(t2.writes)} chunks", {"key": s, "attempt": attempt})
+                return
+            except InvalidEncryptionKeyAPIError:
+                pass
+            except Exception as e:  # noqa: BLE001
+                res.violation("C04/key/wrong-exception-on-reuse", f"{n_desc}: configured again (attempt {attempt}): raised {e!r} instead of InvalidEncryptionKeyAPIError",
+                              {"key": s, "attempt": attempt})
+                return
     for n in range(0, 65):
         for rep in range(3 if n == 32 else 1):
             raw = os.urandom(n)
@@ -322,6 +340,8 @@ def key_cases(ctx: Ctx) -> None:
                 res.violation("C04/key/invalid-accepted", f"base64 of {n} bytes accepted", {"key": s, "decoded_len": n})
                 if t is not None and t.writes:
                     res.count("keys/invalid-key-wrote")
+            if n != 32 and not ok:
+                again(s, f"base64 of {n} bytes")
     alphabet = "ABCDEFGHIJKLMNOPQRSTUVWXYZabcdefghijklmnopqrstuvwxyz0123456789+/"
     for k in range(60):
         n = 4 * rng.randint(0, 16) + 1
@@ -333,6 +353,7 @@ def key_cases(ctx: Ctx) -> None:
             res.violation("C04/key/invalid-accepted", f"{n}-character string (not valid base64) accepted", {"key": s})
         except InvalidEncryptionKeyAPIError:
             res.sig("key-malformed", n)
+            again(s, f"{n}-character malformed string")
         except Exception as e:  # noqa: BLE001
             res.violation("C04/key/wrong-exception", f"malformed key: construction raised {e!r}", {"key": s})
     # strings that cannot be base64 of anything because they contain characters outside ASCII (copy/paste artefacts: NBSP, zero-width
